@@ -193,12 +193,12 @@ CHECKS.update({
     ),
     "C18": dict(
         engine="Notify", category="model_checking",
-        text=("Notify.tla - the debounce timer states (incl. the fired-but-not-run window), the legacy and subscribed fan-out, the capability gate, URI subscriptions, session lifecycle, "
-              "and the client cache with a two-step fill and two-step notification handling - is checked exhaustively by TLC for all six clauses on bounded configurations, and bound to "
-              "the real mcp.Server and mcp.Client by replaying TLC-generated environment scripts (exhaustive timing-window and cache-race sets, seeded simulations) under synctest, with "
+        text=("Notify.tla - the debounce timer states (incl. the fired-but-not-run window), the legacy and subscribed fan-out, the capability gate, URI subscriptions, single subscriptions/listen requests over several URIs with the SubscribeHandler refusing an environment-chosen subset (nothing of a failed request stays subscribed: SubsOnlyCurrent), ownership of list-changed subscriptions by the listen that made them, session lifecycle, "
+              "and the paged client cache with a generation-checked two-step fill and two-step notification handling - is checked exhaustively by TLC for all six clauses on bounded configurations, and bound to "
+              "the real mcp.Server and mcp.Client by replaying TLC-generated environment scripts (exhaustive timing-window, cache-race, subscription and several-URI-listen sets incl. a held UnsubscribeHandler, seeded simulations; the repaired defects stay as regression scenarios and as switched-off witnesses TLC must still refute) under synctest, with "
               "the TLA+ monitor NotifyMon judging the observation log; a per-step comparison of server maps, the pending-timer reference and delivery counts is reported as drift."),
         design_ref="DESIGN.md section 6 C18, 5.8",
-        note="Trusted: TLC; synctest's virtual clock; net.Pipe in-memory transports; the harness middleware gates and log order; the in-package state snapshot reader.",
+        note="Trusted: TLC; synctest's virtual clock; net.Pipe in-memory transports; the harness middleware gates and log order; the in-package state snapshot reader and the in-package call of ClientSession.subscriptionsListen for several-URI requests.",
         technique="TLA+ spec + TLC exhaustive; lead replay; scenario conformance on real sessions with a TLA+ monitor",
     ),
 })
